@@ -53,11 +53,15 @@ ResMatch(op, a, b) ==
 
 Matches(o, ev) ==
     /\ ResMatch(ev.call.op, o.res, ev.res)
-    /\ ProjFor(o.st) = PostOf(ev)
-    /\ CwdPath(o.st) = ev.cwd
-    /\ HObs(o.st) = ev.hs
-    /\ ev.srt
-    /\ (o.inv = "ok" => ev.inv = "ok")
+    \* after a panic or a deadlock the instance cannot be observed any more
+    /\ (ev.res.err \notin {"PANIC", "DEADLOCK"}) =>
+          (/\ ProjFor(o.st) = PostOf(ev)
+           /\ CwdPath(o.st) = ev.cwd
+           /\ HObs(o.st) = ev.hs
+           /\ ev.srt
+           /\ (o.inv = "ok" => ev.inv = "ok"))
+    \* a path handed back through BasePathFS never shows the base path (unless a deviation is known to)
+    /\ (o.kf = "" => ~ev.leak)
 
 Note(reg, x) == TLCSet(reg, TLCGet(reg) \cup x)
 Count(reg) == TLCSet(reg, TLCGet(reg) + 1)
